@@ -221,8 +221,235 @@ def reference_functions():
     return _cache['f']
 
 
+def clone(node):
+    """copy of a syntax tree: fields and positions only (no parent / unit pointers, which would drag the whole module along)"""
+    if isinstance(node, list):
+        return [clone(x) for x in node]
+    if not isinstance(node, ast.AST):
+        return node
+    new = type(node)()
+    for name, val in ast.iter_fields(node):
+        setattr(new, name, clone(val))
+    for a in ('lineno', 'col_offset', 'end_lineno', 'end_col_offset'):
+        if hasattr(node, a):
+            setattr(new, a, getattr(node, a))
+    return new
+
+
+def retag(fn, unit=None):
+    """parent / unit pointers of a function subtree after nodes were replaced"""
+    unit = unit or getattr(fn, '_unit', None)
+    for n in ast.walk(fn):
+        if unit is not None:
+            n._unit = unit
+        for c in ast.iter_child_nodes(n):
+            c._parent = n
+
+
+def _quiet(node):
+    """evaluating / executing the node cannot change any state but local names"""
+    for x in ast.walk(node):
+        if isinstance(x, (ast.Call, ast.Await, ast.Yield, ast.YieldFrom, ast.AugAssign, ast.Delete, ast.With, ast.Try, ast.Import, ast.ImportFrom)):
+            return False
+        if isinstance(x, (ast.Attribute, ast.Subscript)) and isinstance(x.ctx, (ast.Store, ast.Del)):
+            return False
+    return True
+
+
+def _pure_expr(e):
+    return not any(isinstance(x, (ast.Call, ast.Await, ast.Yield, ast.YieldFrom, ast.NamedExpr, ast.Lambda, ast.ListComp, ast.GeneratorExp,
+                                  ast.SetComp, ast.DictComp)) for x in ast.walk(e))
+
+
+def inline_new_temporaries(ref_fn, cur_fn):
+    """A local that the reference function does not have, bound only by plain assignments `t = E`, each read only where
+    its definition reaches in a straight line with nothing in between that could change what E denotes, is read as E:
+    the temporary is an edit of spelling, not of behaviour.  Returns the names inlined."""
+    from . import resolve
+    ref_names = {n.id for n in ast.walk(ref_fn) if isinstance(n, ast.Name)} | {a.arg for a in ast.walk(ref_fn) if isinstance(a, ast.arg)}
+    params = {a.arg for a in ast.walk(cur_fn.args) if isinstance(a, ast.arg)}
+    skip = (ast.Lambda, ast.ListComp, ast.GeneratorExp, ast.DictComp, ast.SetComp, ast.Yield, ast.Await, ast.Starred)
+    done = []
+    for t in sorted(own_locals(cur_fn) - params - ref_names):
+        binders = [s for s in own_statements(cur_fn) if not isinstance(s, FUNC + (ast.ClassDef,)) and t in _header_bound(s)]
+        if not binders or not all(isinstance(d, ast.Assign) and len(d.targets) == 1 and isinstance(d.targets[0], ast.Name)
+                                  and not isinstance(d.value, skip) for d in binders):
+            continue
+        by_value = {id(d.value): d for d in binders}
+        uses, escapes = [], []
+
+        def collect(node):
+            for c in ast.iter_child_nodes(node):
+                if isinstance(c, FUNC):
+                    if t in own_locals(c):
+                        continue            # another variable of the same name
+                    if any(isinstance(x, ast.Name) and x.id == t for x in ast.walk(c)):
+                        escapes.append(c)
+                    continue
+                if isinstance(c, ast.Name) and c.id == t and isinstance(c.ctx, ast.Load):
+                    uses.append(c)
+                collect(c)
+        collect(cur_fn)
+        if not uses or escapes:
+            continue
+        plan = []
+        ok = True
+        for u in uses:
+            # the use is in the function's own scope (not in a nested def / lambda / comprehension)
+            p = getattr(u, '_parent', None)
+            while p is not None and p is not cur_fn:
+                if isinstance(p, FUNC + (ast.Lambda, ast.ClassDef, ast.ListComp, ast.GeneratorExp, ast.SetComp, ast.DictComp)):
+                    ok = False
+                    break
+                p = getattr(p, '_parent', None)
+            if not ok or p is None:
+                ok = False
+                break
+            st = resolve.stmt_of(u)
+            E = resolve.definition(t, st)
+            d = by_value.get(id(E)) if E is not None else None
+            if d is None:
+                ok = False
+                break
+            # nothing between the definition and the use can change what E denotes
+            for s_, _blocked in resolve._predecessors(st):
+                if s_ is d:
+                    break
+                if not _quiet(s_):
+                    ok = False
+                    break
+            if not ok:
+                break
+            # enclosing statements between the use and the block of the definition: no loops, quiet headers
+            q = getattr(st, '_parent', None)
+            dp = getattr(d, '_parent', None)
+            while q is not None and q is not dp:
+                if isinstance(q, (ast.For, ast.AsyncFor, ast.While, ast.With, ast.AsyncWith, ast.Try, ast.ExceptHandler)):
+                    ok = False
+                    break
+                if isinstance(q, ast.If) and not _quiet(q.test):
+                    ok = False
+                    break
+                q = getattr(q, '_parent', None)
+            if not ok or q is None:
+                ok = False
+                break
+            plan.append((u, d))
+        if not ok:
+            continue
+        # an expression with calls is not duplicated
+        count = {}
+        for u, d in plan:
+            count[id(d)] = count.get(id(d), 0) + 1
+        if any(count.get(id(d), 0) > 1 and not _pure_expr(d.value) for d in binders):
+            continue
+        if any(count.get(id(d), 0) == 0 and not _pure_expr(d.value) for d in binders):
+            continue            # a definition nobody reads whose evaluation may matter: leave everything alone
+        for u, d in plan:
+            new = clone(d.value)
+            for x in ast.walk(new):
+                if hasattr(x, 'lineno'):
+                    x.lineno = getattr(u, 'lineno', x.lineno)
+                    x.end_lineno = getattr(u, 'end_lineno', None)
+            par = u._parent
+            for name, val in ast.iter_fields(par):
+                if val is u:
+                    setattr(par, name, new)
+                elif isinstance(val, list):
+                    for i, v in enumerate(val):
+                        if v is u:
+                            val[i] = new
+        for d in binders:
+            par = d._parent
+            for fld in ('body', 'orelse', 'finalbody'):
+                blk = getattr(par, fld, None)
+                if isinstance(blk, list) and any(b is d for b in blk):
+                    blk[:] = [b for b in blk if b is not d] or [ast.copy_location(ast.Pass(), d)]
+        retag(cur_fn)
+        done.append(t)
+    return done
+
+
+def _header_bound(s):
+    """names bound by the statement itself (not by statements nested in its blocks)"""
+    out = set()
+    for name, val in ast.iter_fields(s):
+        if name in _BLOCKS:
+            continue
+        vals = val if isinstance(val, list) else [val]
+        for v in vals:
+            if isinstance(v, ast.AST):
+                for x in ast.walk(v):
+                    if isinstance(x, ast.Name) and isinstance(x.ctx, (ast.Store, ast.Del)):
+                        out.add(x.id)
+    if isinstance(s, ast.ExceptHandler) and s.name:
+        out.add(s.name)
+    return out
+
+
+def respell(ref_fn, cur_fn):
+    """A statement that is EQUAL to the aligned reference statement under the equivalences of sa/treecmp.py (commutativity,
+    comparison orientation, keyword order, numeric spelling, `not a in b`, range(0, n), ...) is given the reference's
+    spelling, so that every rule reads one spelling of one computation.  Returns the number of statements respelled."""
+    import copy
+    from . import refdiff
+    R, C = refdiff.records(ref_fn), refdiff.records(cur_fn)
+    rk, ck = [refdiff._key(x) for x in R], [refdiff._key(x) for x in C]
+    sm = difflib.SequenceMatcher(a=rk, b=ck, autojunk=False)
+    n = 0
+    for blk in sm.get_matching_blocks():
+        for k in range(blk.size):
+            (kind, rc, rn), (_k, cc, cn) = R[blk.a + k], C[blk.b + k]
+            if not rc or len(rc) != len(cc) or kind in ('def', 'else', 'try'):
+                continue
+            if all(ast.dump(a) == ast.dump(b) for a, b in zip(rc, cc)):
+                continue
+            new = []
+            for a, b in zip(rc, cc):
+                x = clone(a)
+                for y in ast.walk(x):
+                    if hasattr(y, 'lineno') or isinstance(y, (ast.expr,)):
+                        y.lineno = getattr(b, 'lineno', getattr(cn, 'lineno', 1))
+                        y.end_lineno = getattr(b, 'end_lineno', None)
+                        y.col_offset = getattr(b, 'col_offset', 0)
+                        y.end_col_offset = getattr(b, 'end_col_offset', None)
+                new.append(x)
+            if _set_components(cn, kind, cc, new):
+                n += 1
+    if n:
+        retag(cur_fn)
+    return n
+
+
+def _set_components(stmt, kind, old, new):
+    """replace the component expression nodes `old` of the statement (identity) by `new`"""
+    ids = {id(o): nw for o, nw in zip(old, new)}
+    hit = 0
+    for name, val in ast.iter_fields(stmt):
+        if name in _BLOCKS:
+            continue
+        if isinstance(val, list):
+            for i, v in enumerate(val):
+                if id(v) in ids:
+                    val[i] = ids[id(v)]
+                    hit += 1
+                elif isinstance(v, ast.withitem):
+                    if id(v.context_expr) in ids:
+                        v.context_expr = ids[id(v.context_expr)]
+                        hit += 1
+                    if v.optional_vars is not None and id(v.optional_vars) in ids:
+                        v.optional_vars = ids[id(v.optional_vars)]
+                        hit += 1
+        elif isinstance(val, ast.AST) and id(val) in ids:
+            setattr(stmt, name, ids[id(val)])
+            hit += 1
+    return hit == len(old)
+
+
 def normalise(prog):
-    """rename purely renamed locals of every function of the program to the reference's names; returns {qual: map}"""
+    """Bring every function that has a reference of the same qualified name to the reference's spelling where the
+    difference is one of spelling only: purely renamed locals, temporaries the reference does not have, statements equal
+    under the treecmp equivalences.  Returns {qual: description}."""
     ref = reference_functions()
     done = {}
     # outer functions first: their renamings reach the free variables of the nested ones
@@ -238,11 +465,31 @@ def normalise(prog):
         if not isinstance(rf, FUNC):
             continue
         try:
-            m = infer_map(rf, fi.node)
-        except RecursionError:
+            if ast.unparse(fi.node) == text:
+                continue        # unchanged since the reference was taken
+        except Exception:
             continue
-        if m:
-            apply_map(fi.node, m)
-            fi.node._renamed = dict(m)
-            done[q] = m
+        what = {}
+        try:
+            m = infer_map(rf, fi.node)
+            if m:
+                apply_map(fi.node, m)
+                fi.node._renamed = dict(m)
+                what['renamed'] = m
+        except RecursionError:
+            pass
+        try:
+            t = inline_new_temporaries(rf, fi.node)
+            if t:
+                what['inlined'] = t
+        except RecursionError:
+            pass
+        try:
+            k = respell(rf, fi.node)
+            if k:
+                what['respelled'] = k
+        except RecursionError:
+            pass
+        if what:
+            done[q] = what
     return done
